@@ -486,6 +486,110 @@ def annotation_model_part(rep, tier):
                 documents=len(states), drift=drift, model_flagged=flagged)
 
 
+# ------------------------------------------------------------------ C18: the representation model
+def _term(node, as_dict=False):
+    """ast of a repr text -> term (Repr.tla): [hd, pos, kws, lit].  as_dict: the node is the
+    value of a dict-valued keyword (properties, patternProperties, dependencies) and is read
+    as a dict of terms even when all its members are literals."""
+    T = lambda hd, pos=(), kws=(), lit=None: {"hd": hd, "pos": list(pos), "kws": [list(x) for x in kws],
+                                              "lit": lit if lit is not None else {"k": "null"}}
+    if as_dict == "list" and isinstance(node, ast.List):       # tuple items, possibly empty
+        return T("list", [_term(x) for x in node.elts])
+    if as_dict is True and isinstance(node, ast.Dict):
+        return T("dict", kws=[(ast.literal_eval(k), _term(v)) for k, v in zip(node.keys, node.values)])
+    if isinstance(node, ast.Call) and isinstance(node.func, ast.Name):
+        return T(node.func.id,
+                 [_term(a, "list" if node.func.id == "Array" else False) for a in node.args],
+                 [(k.arg, _term(k.value, True if k.arg in ("properties", "patternProperties", "dependencies")
+                                else "list" if k.arg == "items" else False))
+                  for k in node.keywords])
+    if isinstance(node, ast.Name) and node.id not in ("True", "False", "None"):
+        return T("ref", lit={"k": "str", "v": node.id})
+    try:
+        return T("lit", lit=codec.py_to_tagged(ast.literal_eval(node)))
+    except Exception:  # noqa: not a pure literal
+        pass
+    if isinstance(node, (ast.List, ast.Tuple)):
+        return T("list", [_term(x) for x in node.elts])
+    raise ValueError("unreadable repr node " + ast.dump(node)[:80])
+
+
+def _norm_term(t):
+    """dependencies are one dict in the code and two keyword groups in the model (array forms
+    first): compare that dict as a mapping; literals in normal form"""
+    out = {"hd": t["hd"], "pos": [_norm_term(x) for x in t["pos"]], "kws": [], "lit": t["lit"]}
+    if t["hd"] == "lit":
+        out["lit"] = codec.norm_tagged(t["lit"])
+    for k, v in t["kws"]:
+        v = _norm_term(v)
+        if k == "dependencies" and v["hd"] == "dict":
+            v["kws"] = sorted(v["kws"], key=lambda kv: kv[0])
+        out["kws"].append([k, v])
+    return out
+
+
+def _repr_model_obs(state):
+    from statham.schema.elements.meta import ObjectMeta
+    sj = codec.schema_to_json(state["doc"])
+    kind, el = drive.parse_labelled(sj)
+    if kind != "ok":
+        return {"parse": kind}
+    try:
+        term = _norm_term(_term(ast.parse(repr(el), mode="eval").body))
+        classes = {}
+        for c in drive.walk_elements(el):
+            if isinstance(c, ObjectMeta):
+                classes[c.__name__] = _norm_term(_term(ast.parse(repr(dict(c.properties)), mode="eval").body, True))
+    except Exception as exc:  # noqa
+        return {"parse": "ok", "err": type(exc).__name__ + ": " + str(exc)[:120], "text": repr(el)[:300]}
+    return {"parse": "ok", "term": term, "classes": classes, "text": repr(el)[:300]}
+
+
+def repr_model_part(rep, tier):
+    """MC_Repr: TLC checks, on the MODEL, that evaluating the representation of every element
+    of every tree rebuilds that element (ReprRebuilds) and that no keyword is shown twice; the
+    real repr() text, read back with ast, is compared with the model's term (equal => TLC's
+    verdict stands for the real text)."""
+    lines, meta = df._cached_tlc("repr-bfs", df._cfg(df.TIERS[tier]["bfs"], False), module="MC_Repr")
+    seeds, smeta = df._cached_tlc("repr-seed", df._cfg(df.TIERS[tier]["seed"], False, "SeedSpec",
+                                                        df.TIERS[tier]["seed_levels"]), module="MC_Repr")
+    states = lines + seeds
+    obs = drive.pmap(_repr_model_obs, states, chunksize=64)
+    drift = flagged = compared = class_terms = 0
+    first_drift = None
+    for st, ob in zip(states, obs):
+        if not ob or ob.get("parse") != "ok" or not st["ok"]:
+            if ob and st["ok"] != (ob.get("parse") == "ok"):
+                drift += 1
+            continue
+        if "err" in ob:
+            rep.violation(("C18", "repr-not-readable"), f"repr text cannot be read back: {ob['text']}: {ob['err']}",
+                          dict(state=st))
+            continue
+        compared += 1
+        want = _norm_term(st["term"])
+        want_classes = {name: _norm_term(t) for name, t in st["classes"]}
+        class_terms += len(want_classes)
+        if ob["term"] != want or ob["classes"] != want_classes:
+            drift += 1
+            if first_drift is None:
+                first_drift = dict(schema=codec.schema_to_json(st["doc"]), real=ob["text"],
+                                   model=json.dumps(want, default=str)[:400], real_term=json.dumps(ob["term"], default=str)[:400])
+            continue
+        if st["m18"]:
+            flagged += 1
+            rep.violation(("C18", "repr-does-not-rebuild", "design"),
+                          f"(design level, real repr text equals the model's) evaluating {ob['text']} does not "
+                          f"rebuild the element of {json.dumps(codec.schema_to_json(st['doc']))[:200]}", dict(state=st))
+    out = dict(states=meta["distinct"] + smeta["distinct"], transitions=meta["states"] + smeta["states"],
+               documents=len(states), compared=compared, class_property_dicts=class_terms, drift=drift,
+               model_flagged=flagged)
+    if first_drift:
+        out["first_drift"] = first_drift
+    return out
+
+
+
 # ------------------------------------------------------------------ driver
 def run(pid, tier, replay_file=None):
     t0 = time.time()
@@ -642,6 +746,9 @@ def run(pid, tier, replay_file=None):
     annmodel = {}
     if pid == "C19" and not replay_file:
         annmodel = annotation_model_part(rep, tier)
+    reprmodel = {}
+    if pid == "C18" and not replay_file:
+        reprmodel = repr_model_part(rep, tier)
     bfs, sim, seed = info.get("bfs", {}), info.get("sim", {}), info.get("seed", {})
     if not replay_file and len(nontrivial) < 2:
         raise MachineryError("vacuity: no non-trivial case")
@@ -668,6 +775,11 @@ def run(pid, tier, replay_file=None):
         coverage["states"] += annmodel["states"]
         coverage["transitions"] += annmodel["transitions"]
         coverage["traces_validated_against_impl"] += annmodel["documents"]
+    if reprmodel:
+        coverage["repr_model"] = reprmodel
+        coverage["states"] += reprmodel["states"]
+        coverage["transitions"] += reprmodel["transitions"]
+        coverage["traces_validated_against_impl"] += reprmodel["compared"]
     return rep.finish(coverage, time.time() - t0,
                       assumptions=["A1 bounded exhaustiveness", "A7 Draft6.tla is the reference"])
 
